@@ -134,6 +134,9 @@ Step_C02 ==
         /\ Settled = {} /\ Issued = {}
         /\ bal'[TAX] = bal[TAX]
         /\ (~Ok(e, "Withdraw") => bal'[REQ] = bal[REQ] /\ earned' = earned /\ oearned' = oearned)
+        \* exactly one settlement *happens*: when a block has ended, no request whose expiry block
+        \* it was is still waiting for its settlement
+        /\ (e.name = "EndBlock" => \A r \in actId' : r \in DOMAIN req' /\ req'[r].exp >= height')
 
 -----------------------------------------------------------------------------
 (* C03  binding deposits stay in custody and leave only by the rules *)
@@ -197,7 +200,10 @@ Step_C04 ==
     LET e == ev' IN
     IF IsMeta(e) THEN TRUE
     ELSE
-    \A k \in DOMAIN bind :
+    \* slashed once for each request that times out unanswered: none is left pending (and so
+    \* unpunished) when its expiry block has ended
+    /\ (e.name = "EndBlock" => \A r \in actId' : r \in DOMAIN req' /\ req'[r].exp >= height')
+    /\ \A k \in DOMAIN bind :
         LET n == Failures(k)
             b == bind[k]
             b1 == bind'[k]
@@ -281,6 +287,12 @@ Step_C07 ==
     LET e == ev' IN
     IF IsMeta(e) THEN TRUE
     ELSE
+    \* what the consumer pays at batch start is the sum of those fees (nothing in super mode)
+    /\ (e.name = "StartBatch" /\ e.id \in DOMAIN ctx /\ Issued # {}) =>
+          LET c == ctx[e.id]
+              due == IF c.super THEN 0
+                     ELSE SumOver([r \in Issued |-> IF HasBind(c.svc, req'[r].prov) THEN PubPrice(c, req'[r].prov) ELSE 0], Issued)
+          IN bal'[c.cons] = bal[c.cons] - due
     /\ \A r \in Issued :
           /\ r[1] \in DOMAIN ctx
           /\ LET c == ctx[r[1]]
